@@ -4,6 +4,7 @@ import (
 	"time"
 
 	"github.com/karagenc/socket.io-go/internal/sync"
+	"github.com/karagenc/socket.io-go/internal/verifhook"
 
 	"github.com/karagenc/socket.io-go/parser"
 	"github.com/karagenc/yeast"
@@ -82,6 +83,7 @@ func (a *sessionAwareAdapter) cleaner() {
 			}
 		}
 		a.mu.Unlock()
+		verifhook.Hit("sessionAwareAdapter.cleaner:pass-done")
 	}
 }
 
